@@ -139,6 +139,13 @@ def optimizer_user_maps(t, this, task):
     return this
 
 
+def optimizer_user_maps_owned(t, this, task):
+    """as optimizer_user_maps, with the allocation model of the built-in workspace (ws == nullptr route)"""
+    this = optimizer_user_maps(t, this, task)
+    this.fields['internal_ws_'].owned_tag = 5
+    return this
+
+
 def optimizer_default_maps(t, this, task):
     this = optimizer_setup(t, this, task)
     this.fields['active_spatial_map_'].target = this.fields['default_spatial_map_']
